@@ -68,14 +68,14 @@ def check_case(case, rec):
     if case["expect"] == "valid":
         rec.mon("valid-no-error")
         if errs:
-            rec.violation("rule-conforming annotation draws error(s): " + "/".join(sorted(errs)), case,
+            rec.violation("rule-conforming annotation draws an error", dict(case, observed=sorted(errs)),
                           key=classify(case, errs))
     else:
         rec.mon("mutant-has-code")
         rec.count("mutation-kind", case["kind"])
         if case["expect"] not in errs:
-            rec.violation(f"single-fault mutant ({case['kind']}) lacks {case['expect']}; got: "
-                          + ("/".join(sorted(errs)) or "no error"), case, key=classify(case, errs))
+            rec.violation(f"single-fault mutant ({case['kind']}) lacks {case['expect']}", dict(case, observed=sorted(errs)),
+                          key=classify(case, errs))
 
 
 def run_shard(shard, rec):
